@@ -332,7 +332,10 @@ pub fn c03_req(ctx: &mut Ctx, log: &mut Log, im: &mut Impl, or: &mut Oracle) {
         let kind = if big_skip { "big-skip" } else if ci % 9 == 0 { "valid" } else { mutate(&mut rng, &mut wire, &built.recs) };
         if ci % 5 == 0 { let _ = mutate(&mut rng, &mut wire, &[]); }
         or.count(&format!("mutation={kind}"));
-        let b = *rng.pick(&[24usize, 32, 40, 64, 128, 512, 8192]);
+        // big-skip cases also run with buffers beyond 2^16 ("10s to 100s of KiB" per the documentation), so that one parse() call sees
+        // >= 65536 buffered bytes while a record is being skipped (a u16 narrowing of the chunk length shows only there)
+        let b = if big_skip && ci % 80 == 5 { *rng.pick(&[66_000usize, 70_000, 131_072, 200_000]) } else { *rng.pick(&[24usize, 32, 40, 64, 128, 512, 8192]) };
+        if b > 65_535 { or.count("big_skip_buffer_over_65535"); }
         let mut results: Vec<(String, Vec<u8>, Vec<u8>, String)> = vec![];   // (result, output, leftover+unfed, chunking)
         let chs = [Chunking::All, Chunking::One, Chunking::Fill, Chunking::pick(&mut rng, wire.len()), Chunking::Cut(rng.usize_below(wire.len().max(1)))];
         for (k, ch) in chs.iter().enumerate() {
